@@ -1,12 +1,12 @@
 #!/usr/bin/env python3
-# dev helper: python3 dev.py <harness> <raw|rt> [wraps=a,b] -- engine args
+# dev helper: python3 dev.py <harness> [kind] -- engine args   (build settings from checks.HARNESSES when listed)
 import sys, subprocess, fmcbuild as b
-name, kind = sys.argv[1], sys.argv[2]
-rest = sys.argv[3:]
-wraps = []
-if rest and rest[0].startswith("wraps="):
-    wraps = rest[0][6:].split(","); rest = rest[1:]
+from checks import HARNESSES
+name = sys.argv[1]
+rest = sys.argv[2:]
+h = HARNESSES.get(name, {"kind": rest[0] if rest and rest[0] in ("raw", "rt") else "raw"})
+if rest and rest[0] in ("raw", "rt"): rest = rest[1:]
 if rest and rest[0] == "--": rest = rest[1:]
 d = b.build_lib()
-h = b.build_harness(name, kind, d, extra_wraps=wraps)
-sys.exit(subprocess.run([h] + rest).returncode)
+exe = b.build_harness(name, h["kind"], d, extra_wraps=h.get("wraps", ()), lib_objs=h.get("objs"))
+sys.exit(subprocess.run([exe] + rest).returncode)
